@@ -197,6 +197,36 @@ Theorem remove_empty_spec : forall ds,
 Proof. exact remove_empty_spec_proof. Qed.
 Print Assumptions remove_empty_spec.
 
+(** PartitionByInstanceName: one set per instance name, in the order of first occurrence, each
+    holding exactly the digests of that instance name in the set's order; no panic. *)
+Theorem partition_spec : forall ds,
+  Forall valid_digest ds ->
+  partition_by_instance_name (map pack ds) =
+  Ok (map (fun i => map pack (filter (fun d => beqb (d_inst d) i) ds)) (firsts beqb (map d_inst ds))).
+Proof. exact partition_spec_proof. Qed.
+Print Assumptions partition_spec.
+
+(** the generic form: for any key function *)
+Theorem partition_generic : forall (T K : Type) (keqb : K -> K -> bool),
+  (forall a b, keqb a b = true <-> a = b) ->
+  forall (key : T -> K) s, partition_by keqb key s = map (part_of keqb key s) (firsts keqb (map key s)).
+Proof. exact @partition_by_spec. Qed.
+Print Assumptions partition_generic.
+
+(** ** Instance names: every valid name is accepted unchanged *)
+Theorem instance_name_accepts_valid : forall v, valid_instance v -> new_instance_name v = Ok v.
+Proof. exact instance_name_accepts_valid_proof. Qed.
+Print Assumptions instance_name_accepts_valid.
+
+(** ** Whatever a resource name parser accepts is a non-degenerate digest with a known compressor
+    (the contrapositive rejects every malformed class at once: wrong length, non-hex, uppercase,
+    negative / non-numeric / overflowing size, reserved keyword, unknown function or compressor). *)
+Theorem parse_accepts_only_wellformed : forall s v c,
+  (parse_read_path s = Ok (v, c) \/ parse_write_path s = Ok (v, c)) ->
+  (exists d, valid_digest d /\ v = pack d) /\ valid_compressor c.
+Proof. exact parse_sound_proof. Qed.
+Print Assumptions parse_accepts_only_wellformed.
+
 (** ** Non-vacuity: concrete instances that meet the hypotheses *)
 Definition ex_md5 : bytes := [56; 98; 49; 97; 57; 57; 53; 51; 99; 52; 54; 49; 49; 50; 57; 54; 97; 56; 50; 55; 97; 98; 102; 56; 99; 52; 55; 56; 48; 52; 100; 55].
 Definition ex_digest : digest :=
